@@ -28,7 +28,9 @@ RULE = ("histories over a pool of 44 scripts (valid with differing requires, inv
         "comments, with name/description hash comments) and 14 factory steps (definitions "
         "using :regex/:count/:value/:copy/:create/:flags, body, envelope, currentdate, "
         "imap4flags actions; build + render): quick = all ordered pairs of steps with the "
-        "last step being any pool step in reuse and fresh-parser mode plus random triples; "
+        "last step being any pool step in reuse and fresh-parser mode, all (parse X and keep "
+        "its Parser; step Y; only then FiltersSet.from_parser_result(X)) pairs, plus random "
+        "histories; "
         "thorough adds all pairs x pool triples sample and random histories up to length 12. "
         "Non-trivial = history of >= 2 steps; distinct = distinct step sequences.")
 ASSUMPTIONS = [
@@ -39,9 +41,10 @@ ASSUMPTIONS = [
 ]
 FLOORS = {
     "quick": {"history-steps": 35000, "histories": 12000, "baseline-crosschecks": 20,
-              "reuse-histories": 3000, "factory-after-parse": 1000},
+              "reuse-histories": 3000, "factory-after-parse": 1000, "deferred-loads": 2000},
     "thorough": {"history-steps": 400000, "histories": 80000, "baseline-crosschecks": 60,
-                 "reuse-histories": 30000, "factory-after-parse": 20000},
+                 "reuse-histories": 30000, "factory-after-parse": 20000,
+                 "deferred-loads": 10000},
 }
 SHARD_TIMEOUT = {"quick": 600, "thorough": 3000}
 
@@ -191,22 +194,52 @@ def in_child(fn, *a):
     return pickle.loads(data)
 
 
+def load_outcome(p):
+    """FiltersSet built from a finished Parser: requires, names, rendering."""
+    fs = fl.FiltersSet("loaded")
+    r = fl.call(fs.from_parser_result, p)
+    if r[0] != "ret":
+        return ("load", r[0], r[1] if r[0] == "exc" else "hang")
+    t = fl.render(fs)
+    return ("load", "ret", repr(sorted(fs.requires)), repr([f["name"] for f in fs.filters]),
+            repr(t))
+
+
 def run_history(steps):
     parsers = {}
-    return [run_step(s, parsers) for s in steps]
+    out = []
+    deferred = []
+    for s in steps:
+        if s[0] == "load":
+            p = lab.sl_parser.Parser()
+            o = lab.parse(SCRIPTS[s[1]].encode("utf-8"), parser=p)
+            out.append(("load-parse", o.verdict()))
+            if o.verdict() is True:
+                deferred.append(p)
+            else:
+                deferred.append(None)
+        else:
+            out.append(run_step(s, parsers))
+    # sets are built from the kept parsers only now, after everything else has happened
+    tail = [load_outcome(p) if p is not None else ("load", "not-accepted") for p in deferred]
+    return out + [("deferred", tuple(tail))]
 
 
 _baseline = {}
 
 
 def baseline(step):
-    key = step if step[0] == "factory" else ("parse", step[1])
+    key = step if step[0] in ("factory", "load") else ("parse", step[1])
     b = _baseline.get(key)
     if b is None:
-        # pristine: fresh child, fresh Parser, nothing before
-        s = step if step[0] == "factory" else ("parse", step[1], "fresh")
+        # pristine: fresh child, fresh Parser, nothing before (and for a load step the set
+        # is built right after its own parse, with nothing in between)
+        s = step if step[0] in ("factory", "load") else ("parse", step[1], "fresh")
         b = _baseline[key] = in_child(run_history, [s])
     return b
+
+
+LOADABLE = None
 
 
 def step_of(i, mode):
@@ -215,9 +248,15 @@ def step_of(i, mode):
     return ("factory", i - NSCRIPTS)
 
 
+def load_step(rng):
+    return ("load", rng.randrange(NSCRIPTS))
+
+
 def describe(step):
     if step[0] == "parse":
         return {"parse": SCRIPTS[step[1]], "parser": step[2]}
+    if step[0] == "load":
+        return {"parse-and-keep-parser-then-build-FiltersSet-at-the-end": SCRIPTS[step[1]]}
     c, a, m = FACTORY[step[1]]
     return {"factory": {"conditions": c, "actions": a, "matchtype": m}}
 
@@ -232,8 +271,29 @@ def check_history(steps, res: Result):
     if out[0] != "ok":
         res.inconclusive.append("history child failed: %s" % (out[1],))
         return
+    # deferred loads: the set built at the end of the history must equal the set built
+    # right after its own parse in a pristine interpreter
+    loads = [s for s in steps if s[0] == "load"]
+    if loads:
+        got_tail = out[1][-1][1]
+        for s, got in zip(loads, got_tail):
+            b = baseline(s)
+            if b[0] != "ok":
+                res.inconclusive.append("baseline child failed: %s" % (b[1],))
+                return
+            want = b[1][-1][1][0]
+            res.count("deferred-loads")
+            res.monitor("history-differential", got != want)
+            if got != want:
+                res.violation({"step": "from_parser_result", "differs": "loaded-set",
+                               "mode": "-", "after": "other-steps"},
+                              {"history": [describe(x) for x in steps],
+                               "in_history": repr(got)[:400], "pristine": repr(want)[:400]})
+                return
     seen_parse = False
     for i, (step, got) in enumerate(zip(steps, out[1])):
+        if step[0] == "load":
+            continue
         b = baseline(step)
         if b[0] != "ok":
             res.inconclusive.append("baseline child failed: %s" % (b[1],))
@@ -308,6 +368,9 @@ def run_shard(tier, shard, res: Result):
                 if mode == "fresh" and a >= NSCRIPTS and b >= NSCRIPTS:
                     continue
                 check_history([step_of(a, mode), step_of(b, mode)], res)
+            if a < NSCRIPTS:
+                # parse a and keep its parser, do step b, only then build the set from a
+                check_history([("load", a), step_of(b, "fresh")], res)
             if idx % 997 == 0:
                 res.sample({"workload": "pairs", "history": [describe(step_of(a, "reuse")),
                                                             describe(step_of(b, "reuse"))]}, 2)
@@ -319,7 +382,10 @@ def run_shard(tier, shard, res: Result):
             steps = []
             for _ in range(L):
                 m = mode if mode != "mixed" else rng.choice(["reuse", "fresh"])
-                steps.append(step_of(rng.randrange(NSTEPS), m))
+                if rng.random() < 0.15:
+                    steps.append(load_step(rng))
+                else:
+                    steps.append(step_of(rng.randrange(NSTEPS), m))
             check_history(steps, res)
             if i % 499 == 0:
                 res.sample({"workload": "random", "history": [describe(s) for s in steps]}, 1)
